@@ -72,6 +72,16 @@ static void mode_fold(void) {
     }
 }
 
+/* a failed call: dest terminated (C03), empty, and in the null-slack build wholly cleared (C04) */
+static void failed_state(const char *fn, const wchar_t *d, size_t dmax, errno_t rc, const char *det, unsigned long cp) {
+    char obs[200]; int noslack = !strcmp(g_cfg, "noslack");
+    if (wcsnlen(d, dmax) >= dmax) { snprintf(obs, sizeof obs, "%s(dmax=%zu) fails with %d and leaves dest without a terminator", fn, dmax, rc); char r[60]; snprintf(r, sizeof r, "%s-failed-dest-unterminated", fn); vio("C03", r, det, obs, cp); return; }
+    if (d[0] != 0) { snprintf(obs, sizeof obs, "%s(dmax=%zu) fails with %d but dest[0]=%#x", fn, dmax, rc, (unsigned)d[0]); char r[60]; snprintf(r, sizeof r, "%s-failed-dest-not-empty", fn); vio("C04", r, det, obs, cp); return; }
+    /* no element holds anything the call wrote (0x7878 is what was there before); when the failure came after copying began
+       (no space) the null-slack build clears all of dest */
+    for (size_t i = 1; i < dmax; i++) if (d[i] && (d[i] != 0x7878 || (!noslack && rc == ESNOSPC))) { snprintf(obs, sizeof obs, "%s(dmax=%zu) fails with %d but dest[%zu]=%#x still holds output", fn, dmax, rc, i, (unsigned)d[i]); char r[80]; snprintf(r, sizeof r, noslack ? "%s-partial-result-left-no-slack-build" : "%s-failed-partial-result-left", fn); vio("C04", r, det, obs, cp); return; }
+}
+
 /* strings of characters with 1-, 2- and 3-character foldings and NFD expansions, every dmax from 1 up: no access outside dest, EOK only with a terminated
  * result of the reported length, the same text as with an ample destination */
 static void mode_fcstr(void) {
@@ -84,13 +94,15 @@ static void mode_fcstr(void) {
             wchar_t src[8]; unsigned long x = code; for (int i = 0; i < len; i++) { src[i] = A[x % NA]; x /= NA; } src[len] = 0;
             rsize_t rl = 0; errno_t rrc = _wcsfc_s_chk(ref, 64, src, &rl, sizeof ref);
             if (rrc != EOK) { snprintf(obs, sizeof obs, "wcsfc_s of a %d-character string returns %d with an ample destination", len, rrc); vio("C17", "wcsfc_s-string-rejected", "ample", obs, src[0]); continue; }
+            for (int ord = 0; ord < 2; ord++)     /* dest below src, dest above src: the library has one loop for each */
             for (size_t dmax = 1; dmax <= rl + 6; dmax++) {
-                wchar_t *d = place_end(0, dmax * sizeof(wchar_t)); for (size_t k = 0; k < dmax; k++) d[k] = 0x7878;
-                wchar_t *s = place_end(1, (len + 1) * sizeof(wchar_t)); memcpy(s, src, (len + 1) * sizeof(wchar_t));
+                wchar_t *d = place_end(ord, dmax * sizeof(wchar_t)); for (size_t k = 0; k < dmax; k++) d[k] = 0x7878;
+                wchar_t *s = place_end(!ord, (len + 1) * sizeof(wchar_t)); memcpy(s, src, (len + 1) * sizeof(wchar_t));
                 rsize_t l = 99; errno_t rc = -999; probes_reset();
                 FENCED(rc = _wcsfc_s_chk(d, dmax, s, &l, dmax * sizeof(wchar_t)));
                 n_cases++;
-                const char *fit = dmax <= rl ? "too-small" : dmax < rl + 5 ? "fits-with-less-than-4-spare" : "fits-with-spare";
+                const char *fit0 = dmax <= rl ? "too-small" : dmax < rl + 5 ? "fits-with-less-than-4-spare" : "fits-with-spare";
+                char fit[64]; snprintf(fit, sizeof fit, "%s%s", fit0, ord ? "|dest-above-src" : "");
                 if (g_fence.faulted) { n_faults++; snprintf(obs, sizeof obs, "wcsfc_s(dmax=%zu) on a %d-character string whose folding has %zu characters: %s fault at dest%+ld", dmax, len, (size_t)rl, g_fence.is_write ? "WRITE" : "READ", (long)(g_fence.addr - (uintptr_t)d));
                     vio("C17", g_fence.is_write ? "wcsfc_s-string-overruns-dest" : "wcsfc_s-string-reads-outside", fit, obs, src[0]);
                     vio(g_fence.is_write ? "C01" : "C02", g_fence.is_write ? "wcsfc_s-W-fault" : "wcsfc_s-R-fault", fit, obs, src[0]); continue; }
@@ -102,6 +114,7 @@ static void mode_fcstr(void) {
                 } else if (rc == ESNOSPC) {
                     if (dmax >= rl + 5) { snprintf(obs, sizeof obs, "wcsfc_s(dmax=%zu) reports no space although the folding has %zu characters", dmax, (size_t)rl); vio("C17", "wcsfc_s-string-no-space-with-4-spare", fit, obs, src[0]); }
                     if (g_h.count != 1) { snprintf(obs, sizeof obs, "wcsfc_s ESNOSPC with %d handler calls", (int)g_h.count); vio("C05", "wcsfc_s-handler-count", fit, obs, src[0]); }
+                    if (dmax >= 5) failed_state("wcsfc_s", d, dmax, rc, fit, src[0]);
                 } else { snprintf(obs, sizeof obs, "wcsfc_s(dmax=%zu) returns %d", dmax, rc); vio("C17", "wcsfc_s-string-unexpected-code", fit, obs, src[0]); }
                 { char b[60]; snprintf(b, sizeof b, "s;%d;%s;%d;%zu", len, fit, rc, (size_t)rl); distinct_add(hash_str(b)); }
             }
@@ -126,14 +139,15 @@ static void mode_normstr(void) {
                 if (rrc != EOK) { snprintf(obs, sizeof obs, "wcsnorm_s(%s) of a %d-character string returns %d with an ample destination", fm, len, rrc); vio("C17", "wcsnorm_s-string-rejected", fm, obs, src[0]); continue; }
                 /* the decomposition pass needs room for the NFD text even in NFC mode */
                 rsize_t dl = 0; wchar_t tmpd[80]; _wcsnorm_s_chk(tmpd, 80, src, WCSNORM_NFD, &dl, sizeof tmpd);
+                for (int ord = 0; ord < 2; ord++)
                 for (size_t dmax = 1; dmax <= dl + 6; dmax++) {
-                    wchar_t *d = place_end(0, dmax * sizeof(wchar_t)); for (size_t k = 0; k < dmax; k++) d[k] = 0x7878;
-                    wchar_t *sp = place_end(1, (len + 1) * sizeof(wchar_t)); memcpy(sp, src, (len + 1) * sizeof(wchar_t));
+                    wchar_t *d = place_end(ord, dmax * sizeof(wchar_t)); for (size_t k = 0; k < dmax; k++) d[k] = 0x7878;
+                    wchar_t *sp = place_end(!ord, (len + 1) * sizeof(wchar_t)); memcpy(sp, src, (len + 1) * sizeof(wchar_t));
                     rsize_t l = 99; errno_t rc = -999; probes_reset();
                     FENCED(rc = _wcsnorm_s_chk(d, dmax, sp, mode ? WCSNORM_NFC : WCSNORM_NFD, &l, dmax * sizeof(wchar_t)));
                     n_cases++;
                     const char *fit = dmax < 5 ? "below-minimum-5" : dmax <= dl ? "too-small-for-NFD" : dmax < dl + 5 ? "fits-with-less-than-4-spare" : "fits-with-spare";
-                    char det[80]; snprintf(det, sizeof det, "%s|%s", fm, fit);
+                    char det[100]; snprintf(det, sizeof det, "%s|%s%s", fm, fit, ord ? "|dest-above-src" : "");
                     if (g_fence.faulted) { n_faults++; snprintf(obs, sizeof obs, "wcsnorm_s(%s, dmax=%zu) on a %d-character string (NFD length %zu): %s fault at dest%+ld", fm, dmax, len, (size_t)dl, g_fence.is_write ? "WRITE" : "READ", (long)(g_fence.addr - (uintptr_t)d));
                         vio("C17", g_fence.is_write ? "wcsnorm_s-string-overruns-dest" : "wcsnorm_s-string-reads-outside", det, obs, src[0]);
                         vio(g_fence.is_write ? "C01" : "C02", g_fence.is_write ? "wcsnorm_s-W-fault" : "wcsnorm_s-R-fault", det, obs, src[0]); continue; }
@@ -144,7 +158,8 @@ static void mode_normstr(void) {
                         else if (l != rl) { snprintf(obs, sizeof obs, "wcsnorm_s(%s, dmax=%zu) stores %zu characters but reports *lenp=%zu", fm, dmax, got, (size_t)l); vio("C17", "wcsnorm_s-string-length-wrong", det, obs, src[0]); }
                     } else if (rc == ESNOSPC || rc == ESLEMIN) {
                         if (dmax >= dl + 5) { snprintf(obs, sizeof obs, "wcsnorm_s(%s, dmax=%zu) reports %d although the NFD text has %zu characters", fm, dmax, rc, (size_t)dl); vio("C17", "wcsnorm_s-string-no-space-with-4-spare", det, obs, src[0]); }
-                        if (d[0] != 0) { snprintf(obs, sizeof obs, "wcsnorm_s(%s, dmax=%zu) fails with %d but dest[0]=%#x", fm, dmax, rc, (unsigned)d[0]); vio("C04", "wcsnorm_s-failed-dest-not-empty", det, obs, src[0]); }
+                        if (g_h.count != 1) { snprintf(obs, sizeof obs, "wcsnorm_s(%s, dmax=%zu) fails with %d and %d handler calls", fm, dmax, rc, (int)g_h.count); vio("C05", "wcsnorm_s-handler-count", det, obs, src[0]); }
+                        failed_state("wcsnorm_s", d, dmax, rc, det, src[0]);
                     } else { snprintf(obs, sizeof obs, "wcsnorm_s(%s, dmax=%zu) returns %d", fm, dmax, rc); vio("C17", "wcsnorm_s-string-unexpected-code", det, obs, src[0]); }
                     { char b[80]; snprintf(b, sizeof b, "n;%d;%s;%d;%zu", len, det, rc, (size_t)rl); distinct_add(hash_str(b)); }
                 }
